@@ -15,6 +15,9 @@ let d6_d4_regressions = [
   "x : (((y : int) => int) true) = 3; x";                       (* D6 (repaired): must be rejected *)
   "(y : t = 4; t = u; u = int; y) + 1";                          (* D4 (repaired) *)
   "((f : int -> _) => f 1 + 1) ((x : int) => true)";            (* D9 (known finding) *)
+  "(f : type) => (z : (a : type) -> _) => ((w : (a : type) -> f) => w) z";                              (* D19 (known finding): ill-scoped elaborated term *)
+  "(g : type) => (f : type) => (z : (a : type) -> _) => ((w : (a : type) -> f) => w) z";              (* D19: the wrong variable *)
+  "p = (g : type) => (f : type) => (z : (a : type) -> _) => ((w : (a : type) -> f) => w) z; r = p int bool ((a : type) => 5); r int";   (* D19: the value 5 at type bool *)
   "id = (t : type) => (x : t) => x; id int 3";
   "id : (t : type) -> t -> t = (t : type) => (x : t) => x; id bool true";
   "twice = (t : type) => (f : t -> t) => (x : t) => f (f x); twice int ((n : int) => n * 2) 5";
@@ -57,7 +60,7 @@ let gen_for (which : string) ~(tier : string) ~(seed : int) ~(emit : Sexp.t -> u
     ;if i mod 4 = 0 then emit (mk (Gen_prog.confusable r))
   done
 
-let d9_sig (a : int) = if a > 0 then " sig=D9-hole-copied-by-open" else ""
+let d9_sig ?(local = 0) (a : int) = hole_sig ~opened:a ~local
 
 let check_c03 (case : Sexp.t) (res : Sexp.t) : [ `Ok | `Mismatch of string | `Property of string ] * bool =
   match res with
@@ -70,7 +73,7 @@ let check_c03 (case : Sexp.t) (res : Sexp.t) : [ `Ok | `Mismatch of string | `Pr
        (match validate a.elab a.ty with
         | `Valid -> (`Ok, true)
         | `Fuel -> (`Ok, false)
-        | `Illtyped why -> (`Property ("accepted, but the elaborated term is not well typed at the reported type: " ^ why ^ d9_sig a.open_holes), true)))
+        | `Illtyped why -> (`Property ("accepted, but the elaborated term is not well typed at the reported type: " ^ why ^ d9_sig ~local:a.local_holes a.open_holes), true)))
 
 let shape_ok (ty : term) (v : term) : bool =
   (* a program of type int yields a literal, of type bool true/false, of a function type a function, of type type a type *)
@@ -93,7 +96,7 @@ let check_c04 (case : Sexp.t) (res : Sexp.t) : [ `Ok | `Mismatch of string | `Pr
         | `Value v ->
           (* the recorded finding D9 (an unresolved hole met by `open` is replaced by a fresh cell) can strike
              while checking or while evaluating *)
-          let sg = d9_sig (a.open_holes + a.open_holes_eval) in
+          let sg = d9_sig ~local:a.local_holes (a.open_holes + a.open_holes_eval) in
           if not (shape_ok a.ty v) then (`Property ("the value's former does not match the reported type" ^ sg), true)
           else (match validate v a.ty with
               | `Valid -> (`Ok, true)
